@@ -89,6 +89,11 @@ impl<'a> LongChain<'a> {
     pub fn insert(&mut self, index: usize, cow: CowBytes<'a>) {
         #[cfg(debug_assertions)]
         self.verify_invariants();
+        assert!(index <= self.data.len(), "insertion index out of bounds");
+        // An empty segment carries no data and would break `Buf::chunk`'s contract
+        if cow.is_empty() {
+            return;
+        }
         self.total_remaining_len += cow.len();
         self.data.insert(index, cow);
     }
@@ -110,6 +115,10 @@ impl<'a> LongChain<'a> {
     pub fn push(&mut self, cow: CowBytes<'a>) {
         #[cfg(debug_assertions)]
         self.verify_invariants();
+        // An empty segment carries no data and would break `Buf::chunk`'s contract
+        if cow.is_empty() {
+            return;
+        }
         self.total_remaining_len += cow.len();
         self.data.push(cow);
     }
@@ -179,6 +188,10 @@ impl<'a> LongChain<'a> {
     pub fn truncate(&mut self, len: usize) {
         #[cfg(debug_assertions)]
         self.verify_invariants();
+        // Like `Bytes::truncate`, this has no effect if `len` is not smaller than the current length
+        if len >= self.total_remaining_len {
+            return;
+        }
         let mut remaining = len;
         let mut truncate_index = 0;
         while truncate_index < self.data.len() {
